@@ -38,7 +38,7 @@ const (
 var numLits = []string{"0", "1", "2", "3", "4", "5", "7", "10", "12", "0.5", "1.5", "2.25", "0.75", "100", "010", "012", "0017", "00"}
 var strLits = []string{"a", "b", "bc", "Hello", "x y", "", "12", "3", "abc", "é", "A-1", "z",
 	// what a tokeniser looking for the end of a string or of an interpolation must not trip over
-	"q\"t", "\"", "}", "it's", "#{", "{{ }}", "%}"}
+	"q\"t", "\"", "}", "it's", "#{", "{{ }}", "%}", "a\\nb", "C:\\temp", "\\", "x#"}
 var patLits = []string{"^a", "b", "^[a-z]+$", "[0-9]", "c$", "^$", "l+"}
 
 func (g *ExprGen) pick(xs []string) string { return xs[g.R.Intn(len(xs))] }
